@@ -23,7 +23,7 @@ RULE = ("The metric classes are ENUMERATED from the installed river (river.metri
 ASSUMPTIONS = ["river 0.26.1 as installed; the fresh-instance value is the specification of 'the value a fresh metric reports after that "
                "single pair'", "values compare equal if both are NaN"]
 
-LABELS = [0, 1, 2, 'a', 'b']
+LABELS = [0, 1, 2, 'a', 'b', '1', '10', 2 ** 60 + 1, 2 ** 60 + 2]   # digit strings and ints beyond 2**53: float(x) != x
 FBETA = {'FBeta', 'MacroFBeta', 'MicroFBeta', 'WeightedFBeta'}
 
 
@@ -131,6 +131,7 @@ class Sim:
             self.usable = False
             self.initial = None
         self.wrappers = []
+        self.wrapper_kinds = []  # 'auto' | 'manual_dict'
         self.calls = []          # (wrapper index, pair repr)
         self.discarded = 0
 
@@ -161,6 +162,23 @@ class Sim:
                 return f'C13:probe-not-reverted:{self.kind}', f'{self.name}: validate_loss_function changed metric.get() from {before!r} to {after!r}'
             if len(self.wrappers) < 3:
                 self.wrappers.append(w)
+                self.wrapper_kinds.append('auto')
+            return None
+        if op[0] == 'wrap_manual_dict':
+            # the metric is wrapped by hand with the documented optional flag (probability dicts {False: p0, True: p1}) and the wrapper
+            # is then handed to validate_loss_function, as an explainer constructor does
+            from ixai.utils.wrappers.river import RiverMetricToLossFunction
+            if self.kind != 'bin_proba' or len(self.wrappers) >= 3:
+                return None
+            before = self._get()
+            try:
+                w = self.validate(RiverMetricToLossFunction(self.metric, dict_input_metric=True))
+            except Exception as e:
+                return 'C13:validator-rejects-wrapper', f'{self.name}: validate_loss_function raised {e!r} on a RiverMetricToLossFunction'
+            if not _same(before, self._get()):
+                return f'C13:probe-not-reverted:{self.kind}', f'{self.name}: validating a wrapped metric changed metric.get()'
+            self.wrappers.append(w)
+            self.wrapper_kinds.append('manual_dict')
             return None
         _c, wi, y, p, extra = op
         if not self.wrappers:
@@ -168,6 +186,9 @@ class Sim:
         w = self.wrappers[wi % len(self.wrappers)]
         y_true = _mk_true(self.kind, y)
         pred, arg = _mk_pred(self.kind, p, extra)
+        if self.wrapper_kinds[wi % len(self.wrappers)] == 'manual_dict':
+            pred = {False: 1.0 - p, True: p}
+            arg = dict(pred)
         fresh = self.fac()
         try:
             fresh.update(y_true, arg)
@@ -222,7 +243,8 @@ def _pair_strategy(kind):
     ffin = st.one_of(st.integers(-5, 5).map(float), st.floats(-100, 100, allow_nan=False, width=64),
                      st.sampled_from([0.0, 1.0, -1.0, 0.5, 2.0]))
     if kind == 'reg':
-        return st.tuples(ffin, ffin)
+        big = st.integers(0, 40).map(lambda k: 2 ** 60 + k)     # integer targets beyond 2**53 (float(x) != x)
+        return st.one_of(st.tuples(ffin, ffin), st.tuples(ffin, ffin), st.tuples(big, big))
     if kind == 'reg_log':
         pos = st.one_of(st.integers(0, 6).map(float), st.floats(0, 50, allow_nan=False))
         return st.tuples(pos, pos)
@@ -267,6 +289,11 @@ def make_machine(names):
         @rule()
         def wrap_again(self):
             self._do(['wrap'])
+
+        @precondition(lambda self: self.sim is not None and self.sim.kind == 'bin_proba')
+        @rule()
+        def wrap_manual_dict(self):
+            self._do(['wrap_manual_dict'])
 
         @rule(data=st.data(), wi=st.integers(0, 2), extra=st.lists(st.integers(-3, 3), max_size=2))
         def call_new(self, data, wi, extra):
